@@ -171,16 +171,21 @@ pub struct Exec {
     pub op_id: u32,
     /// every handle value ever returned, for the distinctness check
     pub issued: Vec<(char, u32)>,
+    /// handles pushed out of their slot by a later open into the same slot (only happens when a
+    /// replay diverges from the recorded run); they are still open
+    pub displaced_vols: Vec<RawVolume>,
+    pub displaced_dirs: Vec<RawDirectory>,
+    pub displaced_files: Vec<RawFile>,
 }
 
 fn slot<T: Copy>(v: &[Option<T>], i: usize) -> Option<T> {
     v.get(i).cloned().flatten()
 }
-fn put<T>(v: &mut Vec<Option<T>>, i: usize, x: Option<T>) {
+fn put<T>(v: &mut Vec<Option<T>>, i: usize, x: Option<T>) -> Option<T> {
     while v.len() <= i {
         v.push(None);
     }
-    v[i] = x;
+    std::mem::replace(&mut v[i], x)
 }
 
 /// numeric value of a handle (Debug prints it in hex)
@@ -193,7 +198,7 @@ pub fn hnum<T: std::fmt::Debug>(h: &T) -> u32 {
 
 impl Exec {
     pub fn new(vm: Box<dyn Vm>, disk: Disk, clock: Clock) -> Exec {
-        Exec { vm, disk, clock, vols: vec![], dirs: vec![], files: vec![], stale_vols: vec![], stale_dirs: vec![], stale_files: vec![], op_id: 0, issued: vec![] }
+        Exec { vm, disk, clock, vols: vec![], dirs: vec![], files: vec![], stale_vols: vec![], stale_dirs: vec![], stale_files: vec![], op_id: 0, issued: vec![], displaced_vols: vec![], displaced_dirs: vec![], displaced_files: vec![] }
     }
 
     pub fn open_counts(&self) -> (usize, usize, usize) {
@@ -225,7 +230,9 @@ impl Exec {
             Op::OpenVol { fl, part, vs } => match vm.open_volume(*fl, *part) {
                 Ok(h) => {
                     self.issued.push(('v', hnum(&h)));
-                    put(&mut self.vols, *vs, Some(h));
+                    if let Some(old) = put(&mut self.vols, *vs, Some(h)) {
+                        self.displaced_vols.push(old);
+                    }
                     OpRes::Ok(Out::Handle)
                 }
                 Err(e) => OpRes::Err(ek(&e)),
@@ -234,7 +241,7 @@ impl Exec {
                 let Some(h) = slot(&self.vols, *vs) else { return OpRes::Ok(Out::Skipped) };
                 let r = vm.close_volume(*fl, h);
                 if r.is_ok() {
-                    put(&mut self.vols, *vs, None);
+                    let _ = put(&mut self.vols, *vs, None);
                     self.stale_vols.push(h);
                 }
                 Exec::res(r, |_| Out::Unit)
@@ -250,7 +257,9 @@ impl Exec {
                 match vm.open_root_dir(*fl, h) {
                     Ok(d) => {
                         self.issued.push(('d', hnum(&d)));
-                        put(&mut self.dirs, *ds, Some(d));
+                        if let Some(old) = put(&mut self.dirs, *ds, Some(d)) {
+                            self.displaced_dirs.push(old);
+                        }
                         OpRes::Ok(Out::Handle)
                     }
                     Err(e) => OpRes::Err(ek(&e)),
@@ -261,7 +270,9 @@ impl Exec {
                 match vm.open_dir(*fl, p, Nm::Str(name)) {
                     Ok(d) => {
                         self.issued.push(('d', hnum(&d)));
-                        put(&mut self.dirs, *ds, Some(d));
+                        if let Some(old) = put(&mut self.dirs, *ds, Some(d)) {
+                            self.displaced_dirs.push(old);
+                        }
                         OpRes::Ok(Out::Handle)
                     }
                     Err(e) => OpRes::Err(ek(&e)),
@@ -273,7 +284,7 @@ impl Exec {
                     Ok(d) => {
                         self.issued.push(('d', hnum(&d)));
                         self.stale_dirs.push(p);
-                        put(&mut self.dirs, *ds, Some(d));
+                        let _ = put(&mut self.dirs, *ds, Some(d));
                         OpRes::Ok(Out::Handle)
                     }
                     Err(e) => OpRes::Err(ek(&e)),
@@ -283,7 +294,7 @@ impl Exec {
                 let Some(h) = slot(&self.dirs, *ds) else { return OpRes::Ok(Out::Skipped) };
                 let r = vm.close_dir(*fl, h);
                 if r.is_ok() {
-                    put(&mut self.dirs, *ds, None);
+                    let _ = put(&mut self.dirs, *ds, None);
                     self.stale_dirs.push(h);
                 }
                 Exec::res(r, |_| Out::Unit)
@@ -291,7 +302,7 @@ impl Exec {
             Op::DropDir { ds } => {
                 let Some(h) = slot(&self.dirs, *ds) else { return OpRes::Ok(Out::Skipped) };
                 vm.drop_dir(h);
-                put(&mut self.dirs, *ds, None);
+                let _ = put(&mut self.dirs, *ds, None);
                 self.stale_dirs.push(h);
                 OpRes::Ok(Out::Unit)
             }
@@ -317,7 +328,9 @@ impl Exec {
                 match vm.open_file(*fl, d, Nm::Str(name), *mode) {
                     Ok(f) => {
                         self.issued.push(('f', hnum(&f)));
-                        put(&mut self.files, *fs, Some(f));
+                        if let Some(old) = put(&mut self.files, *fs, Some(f)) {
+                            self.displaced_files.push(old);
+                        }
                         OpRes::Ok(Out::Handle)
                     }
                     Err(e) => OpRes::Err(ek(&e)),
@@ -358,14 +371,14 @@ impl Exec {
                 let Some(f) = slot(&self.files, *fs) else { return OpRes::Ok(Out::Skipped) };
                 let r = vm.close_file(*fl, f);
                 // the library forgets the handle even when the flush inside close failed
-                put(&mut self.files, *fs, None);
+                let _ = put(&mut self.files, *fs, None);
                 self.stale_files.push(f);
                 Exec::res(r, |_| Out::Unit)
             }
             Op::DropFile { fs } => {
                 let Some(f) = slot(&self.files, *fs) else { return OpRes::Ok(Out::Skipped) };
                 vm.drop_file(f);
-                put(&mut self.files, *fs, None);
+                let _ = put(&mut self.files, *fs, None);
                 self.stale_files.push(f);
                 OpRes::Ok(Out::Unit)
             }
@@ -433,7 +446,7 @@ impl Exec {
                     0 => vm.open_dir(Fl::Raw, d, Nm::Str("SUB0")).map(|h| {
                         self.issued.push(('d', hnum(&h)));
                         let n = self.dirs.len();
-                        put(&mut self.dirs, n, Some(h));
+                        let _ = put(&mut self.dirs, n, Some(h));
                     }),
                     1 => vm.close_dir(Fl::Raw, d),
                     2 => vm.find(Fl::Raw, d, Nm::Str("PRE0.DAT")).map(|_| ()),
@@ -442,14 +455,14 @@ impl Exec {
                     5 => vm.open_file(Fl::Raw, d, Nm::Str("STALE.NEW"), Mode::ReadWriteCreateOrAppend).map(|h| {
                         self.issued.push(('f', hnum(&h)));
                         let n = self.files.len();
-                        put(&mut self.files, n, Some(h));
+                        let _ = put(&mut self.files, n, Some(h));
                     }),
                     6 => vm.delete(Fl::Raw, d, Nm::Str("PRE0.DAT")),
                     7 => vm.mkdir(Fl::Raw, d, Nm::Str("STALEDIR")),
                     _ => vm.open_dir(Fl::Raw, d, Nm::Str(".")).map(|h| {
                         self.issued.push(('d', hnum(&h)));
                         let n = self.dirs.len();
-                        put(&mut self.dirs, n, Some(h));
+                        let _ = put(&mut self.dirs, n, Some(h));
                     }),
                 };
                 Exec::res(r, |_| Out::Unit)
@@ -463,7 +476,7 @@ impl Exec {
                     0 => vm.open_root_dir(Fl::Raw, v).map(|h| {
                         self.issued.push(('d', hnum(&h)));
                         let n = self.dirs.len();
-                        put(&mut self.dirs, n, Some(h));
+                        let _ = put(&mut self.dirs, n, Some(h));
                     }),
                     1 => vm.close_volume(Fl::Raw, v),
                     _ => vm.label(v).map(|_| ()),
